@@ -220,6 +220,14 @@ buffer is the extracted one -/
 def unmarshal (e : Nat) (defer : Bool) (w : Wire) : Tree :=
   decode Gen.AliasFacts.lazyBuffer e defer Gen.AliasFacts.publicUnmarshalSetsAlias .input w
 
+/-- protodelim.UnmarshalFrom through a `*bufio.Reader`: the message is decoded from the Peek window
+(region `input`); the window is referenced afterwards only if the extracted entry says that
+UnmarshalFrom does more with it than handing it to Unmarshal -/
+def delimUnmarshal (e : Nat) (defer : Bool) (w : Wire) : Tree :=
+  match Gen.AliasFacts.delimWindow with
+  | .transient | .copy => unmarshal e defer w
+  | _ => { unmarshal e defer w with buf := some .input }
+
 mutual
 /-- lazyUnmarshal on every lazy field that is still a slice of the buffer -/
 def forceFs (lb : Cls) (e : Nat) (p : List Nat) : Fields → Fields
